@@ -467,9 +467,6 @@ func (r *Router) handleConn(remote *ServerIdentity, c Conn) {
 		r.Unlock()
 		if paused != nil {
 			<-paused
-			r.Lock()
-			r.paused = nil
-			r.Unlock()
 			return
 		}
 
